@@ -6,6 +6,7 @@
 //                  Per graph: no SecurityManager (baseline), limits 0..T+1 (T = reference expansion count, capped) and the default limit.
 //   --space pe     the same graphs on <= N parameter entities (references written &#37;pK; so that they are expanded when the containing PE is
 //                  included), referenced as %p0; from the internal subset.
+//   --space schema the same graphs (n <= 2 by default) in the internal subset of the *schema document* named by xsi:noNamespaceSchemaLocation.
 //   --space predef k predefined-entity references (&lt;), limits 0..k+1, all four scanners.
 // Reference (computed on the graph, independent of the library): T = number of entity references expanded when the document is processed completely
 // (infinite if a cycle is reachable).  Oracle: acyclic => fatal "expansion limit" error iff T > limit, at most `limit` startEntity events before it,
@@ -19,6 +20,9 @@ static const KnownDefect KNOWN_DEFECTS[] = {
     {"pe-expansion-not-counted",
      "parameter-entity references are entity references (XML 1.0 4.1), but DTDScanner::expandPERef has no SecurityManager counter: a document whose processing "
      "expands more PE references than the configured limit is accepted"},
+    {"schema-document-expansions-not-limited",
+     "the internal XSDDOMParser that reads schema documents does not inherit the SecurityManager: entity references expanded while a schema document named by "
+     "xsi:schemaLocation / noNamespaceSchemaLocation (or import/include/redefine) is read are not counted against the limit"},
 };
 static bool g_strict = false;
 
@@ -202,6 +206,69 @@ static void run_pe(uint64_t idx, Ctx& cx) {
     if (cx.verbose) printf("graph %s\ndoc %s\nreference count %s\n", graph_str(ch).c_str(), doc.c_str(), cyclic ? "infinite" : std::to_string((unsigned long long)T).c_str());
 }
 
+// ------------------------------------------------------------------------------------------------ space schema
+// the entity graph lives in the internal subset of a *schema document* that the instance names through xsi:noNamespaceSchemaLocation
+static void run_schema(uint64_t idx, Ctx& cx) {
+    int scanner = (idx % 2) ? SG : IG;
+    auto ch = graph_at(idx / 2);
+    int n = (int)ch.size();
+    std::string subset;
+    for (int i = 0; i < n; i++) {
+        std::string text = "t";
+        for (int c : ch[i]) text += "&e" + std::to_string(c) + ";";
+        subset += "<!ENTITY e" + std::to_string(i) + " \"" + text + "\">";
+    }
+    std::string xsd = "<!DOCTYPE xs:schema [" + subset + "]><xs:schema xmlns:xs=\"http://www.w3.org/2001/XMLSchema\"><xs:annotation><xs:documentation>&e0;</xs:documentation></xs:annotation>"
+                      "<xs:element name=\"r\" type=\"xs:string\"/></xs:schema>";
+    std::string doc = "<r xmlns:xsi=\"http://www.w3.org/2001/XMLSchema-instance\" xsi:noNamespaceSchemaLocation=\"s.xsd\">x</r>";
+    std::vector<int> onpath(n, 0);
+    uint64_t T = count_from(ch, 0, onpath);
+    bool cyclic = (T == INF);
+    cx.count(cyclic ? "graphs_cycle_reachable" : "graphs_acyclic_reachable");
+    std::string where = "\"graph\":" + jstr(graph_str(ch)) + ",\"schema_document\":" + jstr(xsd) + ",\"doc\":" + jstr(doc) + ",\"scanner\":" + jstr(ScnName[scanner]) +
+                        ",\"reference_count\":" + (cyclic ? std::string("\"infinite\"") : std::to_string((unsigned long long)T));
+    ParseIO io; io.bytes = doc;
+    Config c; c.api = SAX2; c.scanner = scanner; c.ns = true; c.schema = true; c.val = 1;
+    auto viol = [&](const std::string& kind, int limit, const ParseResult& r, const std::string& what) {
+        cx.violation(kind, where + ",\"limit\":" + std::to_string(limit) + ",\"what\":" + jstr(what) + ",\"errors\":" + jstr(join(r.errors)));
+    };
+    auto fresh = [&]() { g_vfs->clear(); g_vfs->put("/v/s.xsd", xsd); };
+    fresh();
+    c.secLimit = -1;
+    ParseResult base = parse_xerces(c, io);
+    cx.count("parses");
+    bool opened = std::find(g_vfs->log.begin(), g_vfs->log.end(), "open /v/s.xsd") != g_vfs->log.end();
+    if (!opened) viol("harness-schema-not-read", -1, base, "the schema document was not opened");
+    if (cyclic) {
+        if (!(base.fatals && has_msg(base, MSG_REC))) viol("schema-cycle-not-reported", -1, base, "a self-referential entity in a schema document must be reported as a fatal error");
+        else cx.count("cycle_reported_without_limit");
+    } else if (base.fatals || base.errs || !base.exc.empty()) viol("harness-baseline-fails", -1, base, "acyclic schema document must load and validate the instance");
+    else cx.count("baseline_ok");
+    uint64_t top = cyclic ? (uint64_t)(2 * n + 3) : std::min<uint64_t>(T + 1, 40);
+    for (uint64_t L = 0; L <= top; L++) {
+        fresh();
+        c.secLimit = (int)L;
+        ParseResult r = parse_xerces(c, io);
+        cx.count("parses");
+        bool lim = r.fatals && has_msg(r, MSG_LIMIT), rec = r.fatals && has_msg(r, MSG_REC);
+        if (cyclic) {
+            if (!(lim || rec)) viol("schema-cycle-not-rejected", (int)L, r, "cyclic entity definition in a schema document must end in a fatal error");
+            else cx.count(lim ? "cyclic_stopped_by_limit" : "cyclic_stopped_by_recursion_check");
+        } else if (T > L) {
+            if (!lim) {
+                if (g_strict) viol(std::string("known-defect:") + KNOWN_DEFECTS[1].id, (int)L, r, "entity references expanded in the schema document exceed the limit but the parse is accepted");
+                else cx.count(std::string("known_defect:") + KNOWN_DEFECTS[1].id);
+            } else cx.count("rejected_over_limit");
+        } else {
+            if (r.fatals) viol("rejected-within-limit", (int)L, r, "reference count is within the limit but the document was rejected");
+            else if (r.d.lines != base.d.lines || r.errors != base.errors) viol("result-differs-with-security-manager", (int)L, r, "dump differs from the parse without SecurityManager");
+            else cx.count("accepted_within_limit");
+        }
+    }
+    if (idx % 97 == 0) cx.sample("{" + where + "}");
+    if (cx.verbose) printf("graph %s\nschema %s\ndoc %s\n", graph_str(ch).c_str(), xsd.c_str(), doc.c_str());
+}
+
 // ------------------------------------------------------------------------------------------------ space predef (observation + "within the limit unaffected")
 static int g_predefK = 4;
 static void run_predef(uint64_t idx, Ctx& cx) {
@@ -238,6 +305,7 @@ int main(int argc, char** argv) {
     uint64_t ng = ngraphs();
     if (space == "ge") { R.total = ng * NSITE; R.fn = run_ge; R.describe = [](uint64_t i) { return "{\"graph\":" + jstr(graph_str(graph_at(i / NSITE))) + ",\"site\":" + jstr(SiteName[i % NSITE]) + "}"; }; }
     else if (space == "pe") { R.total = ng; R.fn = run_pe; R.describe = [](uint64_t i) { return "{\"graph\":" + jstr(graph_str(graph_at(i))) + "}"; }; }
+    else if (space == "schema") { R.total = ng * 2; R.fn = run_schema; R.describe = [](uint64_t i) { return "{\"graph\":" + jstr(graph_str(graph_at(i / 2))) + "}"; }; }
     else if (space == "predef") { R.total = 8ull * (g_predefK + 1); R.fn = run_predef; R.describe = [](uint64_t i) { return "{\"idx\":" + std::to_string((unsigned long long)i) + "}"; }; }
     else { fprintf(stderr, "unknown space\n"); return 2; }
     R.extra_json = "\"entities\":" + std::to_string(g_N) + ",\"graphs\":" + std::to_string((unsigned long long)ng);
